@@ -16,7 +16,7 @@ META = {
                   "directory, and (diagnostic) that the touched set equals the model's prediction.",
     "level_note": "Only Linux/posix path semantics are bound to the implementation (the windows Prefix variant is model-checked only). Names with a leading "
                   "separator are redirected into the sandbox (\\\\x -> \\\\<sandbox>\\\\r1\\\\r2\\\\root\\\\x) so that a successful escape cannot damage the host; components "
-                  "a/ü/long carry the entry's index in the archive. quick: all names of <= 3 components + a seed-rotated 1/24 of the 4-component names, "
+                  "a/ü/long carry the entry's index in the archive. quick: all names of <= 3 components + a seed-rotated 1/8 of the 4-component names, "
                   "single-entry archives with half of the (chain, explicit) pairs; thorough: every name x the full option product.",
     "technique": "TLA+ state machine of path construction/resolution model-checked with TLC; TLC-enumerated adversarial names replayed through the real CLI "
                  "process; trace validation of sandbox snapshots against the spec",
@@ -29,18 +29,28 @@ META = {
 def sig(b):
     r = b.get("reset") or {}
     return {"ev": b.get("ev"), "preserve": r.get("preserve"), "hasroot": r.get("hasroot"), "hasparent": r.get("hasparent"),
-            "modelled": "escape-as-modelled" in str(b.get("why"))}
+            "modelled": "escape-as-unguarded-deviation" in str(b.get("why"))}
+
+
+def _refuted(ctx, cfg, invariant):
+    """A deviation model must be REFUTED by TLC: the named invariant has to be reported violated."""
+    rc, text = ctx.tlc("MC_PathContain", cfg, workers=2, timeout=600, heap="2g", tag="refute-" + cfg)
+    if f"Invariant {invariant} is violated" not in text:
+        raise core.ToolError(f"stage A: TLC did not refute {invariant} for the deviation model {cfg} (rc={rc}):\n" + core._tail(text, 15))
+    core.log(f"(A) MC_PathContain/{cfg}: deviation refuted as expected ({invariant} violated)")
+    ctx.notes.append(f"deviation BeginUnguarded refuted by TLC: {invariant} violated in {cfg}")
 
 
 def _mc(ctx):
+    dev = ("BeginUnguarded",)
     if ctx.thorough:
-        plan = [("MC_PathContain", ("SkipGuarded", "MkdirFail")), ("MC_PathContain_guarded", ("MkdirFail",)),
-                ("MC_PathContain_multi", ("SkipGuarded",)), ("MC_PathContain_multi_guarded", ()),
-                ("MC_PathContain_win", ("SkipGuarded", "MkdirFail")), ("MC_PathContain_win_guarded", ("MkdirFail",))]
+        plan = [("MC_PathContain_guarded", ("MkdirFail",) + dev), ("MC_PathContain_multi_guarded", dev),
+                ("MC_PathContain", ("SkipGuarded", "MkdirFail")), ("MC_PathContain_multi", ("SkipGuarded",)),
+                ("MC_PathContain_win", ("SkipGuarded", "MkdirFail")), ("MC_PathContain_win_guarded", ("MkdirFail",) + dev)]
     else:
-        plan = [("MC_PathContain_q", ("SkipGuarded", "MkdirFail")), ("MC_PathContain_guarded_q", ("MkdirFail",)),
-                ("MC_PathContain_multi_guarded_q", ())]
-    # three model runs at a time, 2-3 workers each (<= 8 TLC workers in total)
+        plan = [("MC_PathContain_guarded_q", ("MkdirFail",) + dev), ("MC_PathContain_multi_guarded_q", dev),
+                ("MC_PathContain_q", ("SkipGuarded", "MkdirFail"))]
+    # three model runs at a time, 2 workers each (<= 8 TLC workers in total)
     def one(p):
         return ctx.mc("MC_PathContain", cfg=p[0], workers=2, timeout=1500, allow_uncovered=p[1], heap="3g")
     import concurrent.futures as cf
@@ -49,9 +59,10 @@ def _mc(ctx):
     covered = set()
     for st in stats:
         covered |= {a for a, n in st["actions"].items() if n > 0}
-    need = {"ListfileDrop", "SkipGuarded", "Begin", "MkdirStep", "MkdirFail", "MkdirDone", "WriteFile", "WriteFail", "Finish"}
+    need = {"ListfileDrop", "SkipGuarded", "Begin", "BeginUnguarded", "MkdirStep", "MkdirFail", "MkdirDone", "WriteFile", "WriteFail", "Finish"}
     if need - covered:
         raise core.ToolError(f"stage A: actions never taken in any PathContain model run: {sorted(need - covered)}")
+    _refuted(ctx, "MC_PathContain_refuted", "Contained")
 
 
 def run(ctx, cases_override=None):
